@@ -755,7 +755,19 @@ def check_c16(prop, tier, seed):
     out = os.path.join(vlib.WORK, f"{prop}-{tier}")
     shutil.rmtree(out, ignore_errors=True)
     summ = vlib.run_fv(["mutate", "--tier", tier, "--seed", seed, "--out", out, "--shards", vlib.JVMS], timeout=3000)
-    verdicts, states, trans, _ = vlib.run_trace_shards("TraceMut.tla", "TraceMut.cfg", summ["files"], tagp=prop, timeout=3000)
+    # spec -> impl: valid streams written by FlacWriter.tla (incl. wasted bits, escaped partitions, 5-bit Rice method, every
+    # header code kind; the model-level lemma Parse(Write(d)) = d is checked on the way) through the library's parser
+    wg = os.path.join(out, "wgen.ndjson")
+    wr = vlib.run_tlc("WriterGen.tla", "WriterGen.cfg", dict(OUTGEN=wg), tag="wgen", workers=8, xmx="6g", timeout=3000)
+    tlc_ok(wr, "WriterGen (round-trip lemma of the specification: Parse(Write(d)) = d)")
+    wsum = vlib.run_fv(["wgen", "--streams", wg, "--out", os.path.join(out, "wgenout")], timeout=1200)
+    verdicts, states, trans, _ = vlib.run_trace_shards("TraceMut.tla", "TraceMut.cfg", summ["files"] + wsum["files"], tagp=prop, timeout=3000)
+    states += wr["states"]
+    trans += wr["generated"]
+    for vid, (v, msgs) in sorted(verdicts.items()):
+        for m in msgs:
+            if m.startswith("NOTE:"):
+                print(f"NOTE property={prop} {vid}: {m[:300]}")
     seen = set()
     ok = 0
     for vid, (v, msgs) in sorted(verdicts.items()):
@@ -776,6 +788,7 @@ def check_c16(prop, tier, seed):
             c[k] += s_[k]
     res.coverage = dict(states=lem["states"] + states, transitions=lem["generated"] + trans, traces_validated_against_impl=ok,
                         evaluations=summ["mutants"], distinct_nontrivial=summ["mutants"], per_class=classes, streams=summ["streams"],
+                        spec_written_streams=wsum["tally"],
                         rule="for each of the small emitted streams (one per subframe kind / channel assignment flavour): EVERY single-bit flip, every "
                              "2..8-bit burst pattern with both end bits set at every bit position inside the frames (quick tier: every 5th), truncation at "
                              "EVERY byte, and seeded random byte strings / overwrites; all mutants are distinct; the parser's outcome is tallied under "
